@@ -659,6 +659,36 @@ Proof.
     rewrite <- app_assoc in I2. cbn in I2. split; [reflexivity|]. split; [exact I2|]. split; congruence.
 Qed.
 
+(* a Flush after the header went out changes nothing: the compressor is not flushed *)
+Lemma inv3_fl c acc y : Inv3 c acc y -> step OFl y = Done y.
+Proof.
+  intros (I1 & I2 & I3 & I4 & I5). cbn [step]. unfold b_fl.
+  assert (Hc : b_active y && b_wrote y && negb (b_stream y) = false).
+  { destruct I4 as [I4 | [I4 I4']]; [rewrite I4; reflexivity | rewrite I4'; cbn [negb]; rewrite andb_false_r; reflexivity]. }
+  rewrite Hc. unfold g_fl, c_fl.
+  destruct (gz_on y).
+  - destruct I5 as (G1 & _). rewrite G1. cbn [bnd]. rewrite I1. reflexivity.
+  - rewrite I1. reflexivity.
+Qed.
+
+Lemma inv3_wops c ws : bodyless c = false -> forall acc y, Inv3 c acc y ->
+  exists y' acc', run_script (map wop_op ws) y = Done y' /\ Inv3 c acc' y' /\
+                  concat acc' = concat acc ++ wbody ws /\ gz_on y' = gz_on y /\ b_mode y' = b_mode y.
+Proof.
+  intro Hb. induction ws as [|w ws IH]; intros acc y I.
+  - exists y, acc. unfold wbody. cbn [map concat]. rewrite app_nil_r. auto.
+  - destruct w as [b|].
+    + destruct (inv3_write c acc y b Hb I) as (y1 & E1 & I1 & G1 & M1).
+      destruct (IH (acc ++ [b]) y1 I1) as (y2 & acc2 & E2 & I2 & C2 & G2 & M2).
+      exists y2, acc2. cbn [map wop_op run_script step]. rewrite E1. cbn [bnd]. rewrite E2.
+      split; [reflexivity|]. split; [exact I2|]. split; [|split; congruence].
+      rewrite C2. rewrite concat_app. unfold wbody. cbn [map wop_bytes concat]. rewrite app_nil_r, <- app_assoc. reflexivity.
+    + destruct (IH acc y I) as (y2 & acc2 & E2 & I2 & C2 & G2 & M2).
+      exists y2, acc2. cbn [map wop_op run_script]. rewrite (inv3_fl c acc y I). cbn [bnd]. rewrite E2.
+      split; [reflexivity|]. split; [exact I2|]. split; [|split; assumption].
+      rewrite C2. unfold wbody. cbn [map wop_bytes concat app]. reflexivity.
+Qed.
+
 Lemma errors_pass et ep m inner x r e y :
   inner x = HRet r e y -> (400 <=? r) = false -> (e = false \/ m <> EDebug) ->
   errors_mw et ep m inner x = HRet r e y.
@@ -684,13 +714,13 @@ Proof. destruct x; reflexivity. Qed.
 
 (* WriteHeader s + Writes, templates absent or deciding not to buffer: the response goes out
    as written *)
-Lemma written_streamed et c path ae sets s bs ret err :
+Lemma written_streamed et c path ae sets s ws ret err :
   forallb set_ok sets = true -> status_rule c path = None ->
   valid_code s = true -> bodyless s = false -> ret < 400 ->
   (err = false \/ eff_errors c <> EDebug) ->
   should_buffer (tmode_of c path) (hs_fun sets []) = false ->
-  let x := serve et c path ae (sets ++ OWh s :: map OWr bs) ret err in
-  cm x = Some s /\ sup x = 0%nat /\ view x = (false, concat bs).
+  let x := serve et c path ae (sets ++ OWh s :: map wop_op ws) ret err in
+  cm x = Some s /\ sup x = 0%nat /\ view x = (false, wbody ws).
 Proof.
   intros Hs Hr Hv Hb Hret Herr Hsb.
   assert (R1 : (400 <=? ret) = false) by lia.
@@ -699,8 +729,8 @@ Proof.
   destruct (entry_b act hd) as [Bm Bs].
   pose proof (fresh_entry act hd) as F0. pose proof (entry_gz act hd) as G0.
   (* the script up to and including the writes *)
-  assert (Hscript : exists y, templates_mw m (probe (sets ++ OWh s :: map OWr bs) ret err) (entry act hd) = HRet ret err y
-                              /\ Inv3 s bs y /\ gz_on y = act).
+  assert (Hscript : exists y, templates_mw m (probe (sets ++ OWh s :: map wop_op ws) ret err) (entry act hd) = HRet ret err y
+                              /\ answered s (wbody ws) act y).
   { unfold templates_mw, templates_on, probe. destruct m eqn:Em.
     - (* no templates *)
       rewrite (run_sets _ _ _ Hs). rewrite (apply_sets_off _ _ Bm).
@@ -712,8 +742,10 @@ Proof.
       { rewrite (hs_fun_ce _ _ Hs). destruct F0 as (_&_&_&_&_&_&_&_&_&F10). exact F10. }
       { left. unfold b_active. rewrite Bm. reflexivity. }
       rewrite E0. cbn [bnd].
-      destruct (inv3_writes s bs Hb [] y0 I0) as (y1 & E1 & I1 & Gy1 & My1).
-      rewrite E1. exists y1. split; [reflexivity|]. split; [exact I1|]. congruence.
+      destruct (inv3_wops s ws Hb [] y0 I0) as (y1 & acc1 & E1 & I1 & C1 & Gy1 & My1).
+      rewrite E1. exists y1. split; [reflexivity|].
+      pose proof (inv3_answered s acc1 y1 Hb I1) as A. rewrite C1 in A. cbn [concat app] in A.
+      replace act with (gz_on y1) by congruence. exact A.
     - (* TExt always buffers *) discriminate Hsb.
     - (* by content type, not html *)
       rewrite (run_sets _ _ _ Hs). rewrite apply_sets_templates by discriminate.
@@ -726,14 +758,15 @@ Proof.
         assert (BX : b_active X = false \/ (b_wrote X = true /\ b_stream X = true)) by (right; split; reflexivity);
         destruct (inv3_commit X H s FX HX Hv BX) as (y0 & E0 & I0 & Gy0 & My0) end.
       rewrite E0. cbn [bnd].
-      destruct (inv3_writes s bs Hb [] y0 I0) as (y1 & E1 & I1 & Gy1 & My1).
+      destruct (inv3_wops s ws Hb [] y0 I0) as (y1 & acc1 & E1 & I1 & C1 & Gy1 & My1).
       rewrite E1.
       assert (St : b_stream y1 = true).
       { destruct I1 as (_ & _ & _ & [Q|[_ Q]] & _); [|exact Q].
         unfold b_active in Q. rewrite My1, My0 in Q. discriminate Q. }
       rewrite St. cbn [orb]. rewrite (b_write_buffered_stream _ St).
-      exists y1. split; [destruct (ret <? 400); reflexivity|]. split; [exact I1|].
-      rewrite Gy1, Gy0. destruct act, hd; reflexivity.
+      exists y1. split; [destruct (ret <? 400); reflexivity|].
+      pose proof (inv3_answered s acc1 y1 Hb I1) as A. rewrite C1 in A. cbn [concat app] in A.
+      replace act with (gz_on y1); [exact A|]. rewrite Gy1, Gy0. destruct act, hd; reflexivity.
     - (* extension does not match *)
       rewrite (run_sets _ _ _ Hs). rewrite apply_sets_templates by discriminate.
       cbn [run_script step]. unfold b_wh. cbn [b_active b_mode set_b b_wrote b_hdr should_buffer negb].
@@ -744,34 +777,37 @@ Proof.
         assert (BX : b_active X = false \/ (b_wrote X = true /\ b_stream X = true)) by (right; split; reflexivity);
         destruct (inv3_commit X H s FX HX Hv BX) as (y0 & E0 & I0 & Gy0 & My0) end.
       rewrite E0. cbn [bnd].
-      destruct (inv3_writes s bs Hb [] y0 I0) as (y1 & E1 & I1 & Gy1 & My1).
+      destruct (inv3_wops s ws Hb [] y0 I0) as (y1 & acc1 & E1 & I1 & C1 & Gy1 & My1).
       rewrite E1.
       assert (St : b_stream y1 = true).
       { destruct I1 as (_ & _ & _ & [Q|[_ Q]] & _); [|exact Q].
         unfold b_active in Q. rewrite My1, My0 in Q. discriminate Q. }
       rewrite St. cbn [orb]. rewrite (b_write_buffered_stream _ St).
-      exists y1. split; [destruct (ret <? 400); reflexivity|]. split; [exact I1|].
-      rewrite Gy1, Gy0. destruct act, hd; reflexivity. }
-  destruct Hscript as (y & Hy & Iy & Gy).
+      exists y1. split; [destruct (ret <? 400); reflexivity|].
+      pose proof (inv3_answered s acc1 y1 Hb I1) as A. rewrite C1 in A. cbn [concat app] in A.
+      replace act with (gz_on y1); [exact A|]. rewrite Gy1, Gy0. destruct act, hd; reflexivity. }
+  destruct Hscript as (y & Hy & A).
   pose proof (errors_pass et (eff_path c path) (eff_errors c) _ _ ret err y Hy R1 Herr) as He.
-  pose proof (inv3_answered s bs y Hb Iy) as A. rewrite Gy in A.
   exact (outer_passes et (c_log c) act hd _ ret err y s _ He R1 A).
 Qed.
 
 (* templates buffers the response and renders it afterwards *)
-Lemma buffered_writes bs : forall y,
+Lemma buffered_wops ws : forall y,
   b_active y = true -> b_wrote y = true -> b_stream y = false ->
-  run_script (map OWr bs) y =
-  Done (set_b y (b_mode y) true false (b_status y) (b_hdr y) (b_buf y ++ concat bs)).
+  run_script (map wop_op ws) y =
+  Done (set_b y (b_mode y) true false (b_status y) (b_hdr y) (b_buf y ++ wbody ws)).
 Proof.
-  induction bs as [|b bs IH]; intros y Ha Hw Hst.
-  - cbn [map run_script concat]. rewrite app_nil_r. destruct y. nproj. subst. reflexivity.
-  - cbn [map run_script step]. unfold b_wr. rewrite Ha, Hw. cbv beta iota delta [bnd]. rewrite Hst.
-    cbv beta iota delta [bnd]. rewrite IH.
-    + destruct y. nproj. subst. norm. cbn [concat]. rewrite <- app_assoc. reflexivity.
-    + destruct y. first [reflexivity | exact Ha].
-    + destruct y. first [reflexivity | exact Hw].
-    + destruct y. first [reflexivity | exact Hst].
+  induction ws as [|w ws IH]; intros y Ha Hw Hst.
+  - unfold wbody. cbn [map run_script concat]. rewrite app_nil_r. destruct y. nproj. subst. reflexivity.
+  - destruct w as [b|].
+    + cbn [map wop_op run_script step]. unfold b_wr. rewrite Ha, Hw. cbv beta iota delta [bnd]. rewrite Hst.
+      cbv beta iota delta [bnd]. rewrite IH.
+      * destruct y. nproj. subst. norm. unfold wbody. cbn [map wop_bytes concat]. rewrite <- app_assoc. reflexivity.
+      * destruct y. first [reflexivity | exact Ha].
+      * destruct y. first [reflexivity | exact Hw].
+      * destruct y. first [reflexivity | exact Hst].
+    + cbn [map wop_op run_script step]. unfold b_fl. rewrite Ha, Hw, Hst. cbn [andb negb bnd].
+      rewrite (IH y Ha Hw Hst). unfold wbody. cbn [map wop_bytes concat app]. reflexivity.
 Qed.
 
 (* header + body written through the header/gzip wrappers of a fresh stack *)
@@ -791,10 +827,10 @@ Lemma templates_mw_on m inner x : m <> TOff -> templates_mw m inner x = template
 Proof. intro H. destruct m; [congruence| | |]; reflexivity. Qed.
 
 (* the script as seen by a buffering ResponseBuffer *)
-Lemma probe_buffered m sets s bs ret err X :
+Lemma probe_buffered m sets s ws ret err X :
   m <> TOff -> forallb set_ok sets = true -> should_buffer m (hs_fun sets []) = true ->
-  probe (sets ++ OWh s :: map OWr bs) ret err (set_b X m false false 200 [] []) =
-  HRet ret err (set_b X m true false s (hs_fun sets []) (concat bs)).
+  probe (sets ++ OWh s :: map wop_op ws) ret err (set_b X m false false 200 [] []) =
+  HRet ret err (set_b X m true false s (hs_fun sets []) (wbody ws)).
 Proof.
   intros Hm Hs Hsb. unfold probe.
   rewrite (run_sets _ _ _ Hs). rewrite (apply_sets_templates _ _ _ Hm).
@@ -802,19 +838,19 @@ Proof.
   assert (Ba : b_active (set_b X m false false 200 (hs_fun sets []) []) = true)
     by (unfold b_active; destruct m; try congruence; destruct X; reflexivity).
   rewrite Ba. cbn [b_wrote set_b b_mode b_hdr]. rewrite Hsb. cbn [negb bnd].
-  rewrite buffered_writes; [| unfold b_active; destruct m; try congruence; destruct X; reflexivity
+  rewrite buffered_wops; [| unfold b_active; destruct m; try congruence; destruct X; reflexivity
                             | destruct X; reflexivity | destruct X; reflexivity].
   destruct X; reflexivity.
 Qed.
 
-Lemma written_buffered et c path ae sets s bs ret err :
+Lemma written_buffered et c path ae sets s ws ret err :
   forallb set_ok sets = true -> status_rule c path = None ->
   valid_code s = true -> bodyless s = false -> ret < 400 ->
   (err = false \/ eff_errors c <> EDebug) ->
   should_buffer (tmode_of c path) (hs_fun sets []) = true ->
-  (ret < 300 -> err = false -> contains (concat bs) TPL_OPEN = false) ->
-  let x := serve et c path ae (sets ++ OWh s :: map OWr bs) ret err in
-  cm x = Some s /\ sup x = 0%nat /\ view x = (false, concat bs).
+  (ret < 300 -> err = false -> contains (wbody ws) TPL_OPEN = false) ->
+  let x := serve et c path ae (sets ++ OWh s :: map wop_op ws) ret err in
+  cm x = Some s /\ sup x = 0%nat /\ view x = (false, wbody ws).
 Proof.
   intros Hs Hr Hv Hb Hret Herr Hsb Htpl.
   assert (R4 : (400 <=? ret) = false) by lia.
@@ -823,17 +859,17 @@ Proof.
   set (act := c_gzip c && ae). set (hd := c_header c). set (m := tmode_of c path) in *.
   pose proof (fresh_entry act hd) as F0. pose proof (entry_gz act hd) as G0.
   assert (Hm : m <> TOff) by (intro Q; rewrite Q in Hsb; discriminate Hsb).
-  assert (Hscript : exists r e y, templates_mw m (probe (sets ++ OWh s :: map OWr bs) ret err) (entry act hd) = HRet r e y
-                              /\ (400 <=? r) = false /\ (e = false \/ eff_errors c <> EDebug) /\ answered s (concat bs) act y).
+  assert (Hscript : exists r e y, templates_mw m (probe (sets ++ OWh s :: map wop_op ws) ret err) (entry act hd) = HRet r e y
+                              /\ (400 <=? r) = false /\ (e = false \/ eff_errors c <> EDebug) /\ answered s (wbody ws) act y).
   { rewrite (templates_mw_on _ _ _ Hm). unfold templates_on.
-    rewrite (probe_buffered m sets s bs ret err (entry act hd) Hm Hs Hsb).
-    set (Y := set_b _ m true false s (hs_fun sets []) (concat bs)).
+    rewrite (probe_buffered m sets s ws ret err (entry act hd) Hm Hs Hsb).
+    set (Y := set_b _ m true false s (hs_fun sets []) (wbody ws)).
     assert (FY : fresh Y) by (unfold Y; apply fresh_set_b; exact F0).
     assert (GY : gz_on Y = act) by (unfold Y; destruct act, hd; reflexivity).
     assert (HC : hget (hcopy (hs_fun sets []) (chdr Y)) K_CE = None)
       by (rewrite hget_hcopy_none; [destruct act, hd; reflexivity | rewrite (hs_fun_ce _ _ Hs); reflexivity]).
     replace (b_stream Y) with false by reflexivity.
-    replace (b_buf Y) with (concat bs) by reflexivity.
+    replace (b_buf Y) with (wbody ws) by reflexivity.
     replace (b_status Y) with s by reflexivity.
     replace (b_hdr Y) with (hs_fun sets []) by reflexivity.
     cbn [orb]. rewrite R5.
@@ -841,11 +877,11 @@ Proof.
     - (* a 3xx status or an error was returned: the buffered response is passed on *)
       unfold b_write_buffered.
       replace (b_wrote Y) with true by reflexivity. replace (b_stream Y) with false by reflexivity.
-      replace (b_buf Y) with (concat bs) by reflexivity.
+      replace (b_buf Y) with (wbody ws) by reflexivity.
       replace (b_status Y) with s by reflexivity.
       replace (b_hdr Y) with (hs_fun sets []) by reflexivity.
       cbn [andb negb].
-      destruct (buffered_out Y _ s (concat bs) FY HC Hv Hb) as (z & Ez & Az).
+      destruct (buffered_out Y _ s (wbody ws) FY HC Hv Hb) as (z & Ez & Az).
       rewrite Ez. exists ret, err, z. rewrite GY in Az. auto.
     - (* the template is executed *)
       apply orb_false_iff in R3 as [R3 R6]. subst err.
@@ -853,7 +889,7 @@ Proof.
       set (h3 := match hget _ K_CT with Some _ => _ | None => _ end).
       assert (H3 : hget h3 K_CE = None).
       { unfold h3. match goal with |- context [match ?e with _ => _ end] => destruct e end; hsimp; exact HC. }
-      destruct (buffered_out Y h3 s (concat bs) FY H3 Hv Hb) as (z & Ez & Az).
+      destruct (buffered_out Y h3 s (wbody ws) FY H3 Hv Hb) as (z & Ez & Az).
       cbv zeta. fold h3. rewrite Ez. exists 0, false, z. rewrite GY in Az. auto. }
   destruct Hscript as (r & e & y & Hy & R & E & A).
   pose proof (errors_pass et (eff_path c path) (eff_errors c) _ _ r e y Hy R E) as He.
